@@ -532,7 +532,7 @@ fn main() {
         "axes".into(),
         json!({"alphabet_calls": alpha.len(), "c_functions": per_func.len(), "calls_per_function": per_func,
             "handle_selectors": ["first live", "last live", "live handle of another kind", "closed", "purged by archive close", "NULL", "forged max+1", "forged usize::MAX"],
-            "names": NAMES, "masks": MASKS, "hang_timeout_s": HANG_SECS}),
+            "names": (0..NAMES.len()).map(show).collect::<Vec<_>>(), "masks": MASKS, "hang_timeout_s": HANG_SECS}),
     );
     c.agg.samples.extend(samples);
     c.rule = format!(
@@ -540,7 +540,7 @@ fn main() {
         alpha.len(), depth_done, inits.len()
     );
     c.assume("model membership is driven only by the C API's own successful open/close returns; the contents come from a shadow Rust-API object per archive handle: wow_mpq::Archive::open on the same path for read-only handles, a wow_mpq::MutableArchive on a byte copy of the freshly created file for SFileCreateArchive2 handles, given the same operation whenever the C call reports success");
-    c.assume("not judged: which error code is set, whether a call on a live handle succeeds (except closing it and the acceptance probe), where an out-of-range seek lands inside [0,len], short reads, mask semantics of SFileEnumFiles beyond '*' and '*.txt', bytes of a file handle whose name was modified after it was opened");
+    c.assume("not judged: which error code is set, whether a call on a live handle succeeds (except closing it and the acceptance probe), where an out-of-range seek is clamped to inside [0,len], short reads, mask semantics of SFileEnumFiles beyond '*' and '*.txt', bytes of a file handle whose name was modified after it was opened");
     c.assume("buffers handed to the API are 8-byte aligned with 64 canary bytes on both sides; SFileGetFileName has no size parameter and is given MAX_PATH (260) bytes");
     c.assume("the multi-threaded part of C19 (loom) and the valgrind replay named in the plan are separate checks");
     c.finish();
